@@ -385,6 +385,20 @@ fn fingerprint(r: &Value) -> Value {
 fn run_case(c: &Value) -> Value {
     let op = c.get("op").and_then(|v| v.as_str()).unwrap_or("compile");
     match op {
+        "history" if c.get("fresh_thread").and_then(|v| v.as_bool()).unwrap_or(false) => {
+            // the whole history runs on a brand-new OS thread: thread-local state (the interner)
+            // starts empty, so the listed prior jobs are exactly the thread's history
+            let mut c2 = c.clone();
+            c2.as_object_mut().unwrap().remove("fresh_thread");
+            let h = std::thread::Builder::new()
+                .stack_size(128 << 20)
+                .spawn(move || run_case(&c2))
+                .unwrap();
+            match h.join() {
+                Ok(v) => v,
+                Err(_) => json!({"outcome": "panic", "panic": "history thread died"}),
+            }
+        }
         "history" => {
             // prior jobs run first on this very thread (thread-local interner keeps
             // their history), then the observed job
